@@ -12,37 +12,9 @@
     [values = np.array(values, dtype=float)] is the identity on a list of numbers. *)
 From Coq Require Import ZArith List Bool Sorting.Mergesort.
 From EQ Require Import lib.Num lib.NpList model.M_peaks.
+From EQ Require Export lib.NpPeaks.
 Import ListNotations.
 Local Open Scope num_scope.
-
-(** * numpy primitives that lib/NpList.v does not have ([ediff1d], [diff], [where_idx] = np.where(.)[0], [take], [vmul] are there) *)
-(** x[1:] *)
-Definition sl_from1 {A} (l : list A) : list A := tl l.
-(** x[:-1] *)
-Definition sl_to_m1 {A} (l : list A) : list A := removelast l.
-(** x[::2] and x[1::2] are [evens] and [odds] of model/M_peaks.v *)
-(** np.insert(x, 0, v) *)
-Definition np_insert0 {A} (v : A) (l : list A) : list A := v :: l.
-(** np.insert(x, len(x), v) *)
-Definition np_insert_end {A} (l : list A) (v : A) : list A := l ++ [v].
-(** np.concatenate((a, b)) *)
-Definition np_concatenate {A} (a b : list A) : list A := a ++ b.
-(** a.sort() on an integer array: any sorting function has the same result; the standard library's merge sort is used *)
-Definition np_sort (l : list nat) : list nat := NatSort.sort l.
-(** np.diff / np.ediff1d(., to_begin=b) on an integer array *)
-Fixpoint diffZ (l : list Z) : list Z :=
-  match l with
-  | x :: r => match r with y :: _ => (y - x)%Z :: diffZ r | [] => [] end
-  | [] => []
-  end.
-Definition ediff1dZ (b : Z) (l : list Z) : list Z := b :: diffZ l.
-(** [k in rem_i] for a Python list of integers *)
-Definition mem_nat (k : nat) (l : list nat) : bool := existsb (Nat.eqb k) l.
-(** x[a:b] *)
-Definition sl_range {A} (a b : nat) (l : list A) : list A := firstn (b - a) (skipn a l).
-(** np.delete(a, idx): drop the positions listed in idx *)
-Definition np_delete {A} (a : list A) (idx : list nat) : list A :=
-  map snd (filter (fun p => negb (mem_nat (fst p) idx)) (combine (seq 0 (length a)) a)).
 
 Section Generic.
 Context {T : Type} `{NumOps T}.
